@@ -236,6 +236,19 @@ Definition step_fun2par (N : nat) (idx : list (list nat)) (p : proj) (a : arr Qc
               end
   end.
 
+(* ---------------- a matrix acting on function values: numpy's M @ x ---------------- *)
+(* x of shape (n,) -> (rows,); x of shape (n,k) -> (rows,k), column by column; n must be the number of columns of M
+   (ValueError otherwise); higher-rank x is not modelled (refused) *)
+Definition mat_cols (M : list (list Qc)) : nat := match M with [] => 0%nat | r :: _ => length r end.
+Definition matmap (M : list (list Qc)) (a : arr Qc) : option (arr Qc) :=
+  match shp a with
+  | [n] => if (n =? mat_cols M)%nat then Some (mkArr [length M] (qmatvec M (dat a))) else None
+  | [n; k] => if (n =? mat_cols M)%nat
+              then Some (mkArr [length M; k] (of_cols 0%Qc (length M) (map (qmatvec M) (cols_of 0%Qc n k (dat a)))))
+              else None
+  | _ => None
+  end.
+
 (* ---------------- one type for all geometries (values in Qc) ---------------- *)
 Inductive geom :=
 | GCont1D (n : nat)                                  (* Continuous1D, _DefaultGeometry1D *)
@@ -243,6 +256,9 @@ Inductive geom :=
 | GCont2D (n1 n2 : nat)
 | GImage (r c : nat) (o : order) (visual : bool)     (* Image2D, _DefaultGeometry2D (order C) *)
 | GMapped (g : geom) (fm : Qc -> Qc) (fi : option (Qc -> Qc))   (* MappedGeometry: ANY elementwise map, optional imap *)
+| GMappedLin (g : geom) (M : list (list Qc)) (Mi : option (list (list Qc)))
+      (* MappedGeometry whose map acts on the WHOLE array of function values: x -> M @ x (any matrix: interpolation,
+         restriction, permutation, cumulative sum ...; the size may change), optional imap y -> Mi @ y *)
 | GKL (N : nat) (nm : option nat) (coefs : list Qc) (tau : Qc) (dstM idstM : list (list Qc))
 | GStep (N : nat) (idx : list (list nat)) (p : proj).
 
@@ -254,6 +270,7 @@ Fixpoint g_par2fun (g : geom) (a : arr Qc) : option (arr Qc) :=
   | GCont2D n1 n2 => cont2d_par2fun 0%Qc n1 n2 a
   | GImage r c o v => image_par2fun 0%Qc r c o v a
   | GMapped g' fm _ => option_map (arr_map fm) (g_par2fun g' a)
+  | GMappedLin g' M _ => obind (g_par2fun g' a) (matmap M)
   | GKL N nm coefs tau _ idstM => kl_par2fun (qmatvec idstM) N (kl_modes N nm) coefs tau a
   | GStep N idx _ => step_par2fun N idx a
   end.
@@ -264,6 +281,7 @@ Fixpoint g_fun2par (g : geom) (a : arr Qc) : option (arr Qc) :=
   | GCont2D n1 n2 => cont2d_fun2par 0%Qc n1 n2 a
   | GImage _ _ o v => image_fun2par 0%Qc o v a
   | GMapped g' _ fi => match fi with Some f => g_fun2par g' (arr_map f a) | None => None end
+  | GMappedLin g' _ Mi => match Mi with Some R => obind (matmap R a) (g_fun2par g') | None => None end
   | GKL N nm coefs tau dstM _ => kl_fun2par (qmatvec dstM) N (kl_modes N nm) coefs tau a
   | GStep N idx p =>                  (* NaN results are handled by step_fun2par; here they are refused *)
       obind (step_fun2par N idx p a) (fun r => option_map (mkArr (shp r)) (all_some (dat r)))
@@ -275,6 +293,7 @@ Fixpoint g_par_shape (g : geom) : list nat :=
   | GCont2D n1 n2 => [(n1 * n2)%nat]
   | GImage r c _ _ => [(r * c)%nat]
   | GMapped g' _ _ => g_par_shape g'
+  | GMappedLin g' _ _ => g_par_shape g'
   | GKL N nm _ _ _ _ => [kl_modes N nm]
   | GStep _ idx _ => [length idx]
   end.
@@ -287,7 +306,7 @@ Definition g_fun_shape (g : geom) : option (list nat) :=
   | GCont1D n | GDiscrete n => Some [n]
   | GCont2D n1 n2 => Some [n1; n2]
   | GImage r c _ v => Some (if v then [(r * c)%nat] else [r; c])
-  | GMapped _ _ _ => option_map shp (g_par2fun g (ones [prodn (g_par_shape g)]))
+  | GMapped _ _ _ | GMappedLin _ _ _ => option_map shp (g_par2fun g (ones [prodn (g_par_shape g)]))
   | GKL N _ _ _ _ _ => Some [N]
   | GStep N _ _ => Some [N]
   end.
@@ -298,14 +317,14 @@ Fixpoint g_fun2vec (g : geom) (a : arr Qc) : option (arr Qc) :=
   match g with
   | GCont2D _ _ => None
   | GImage _ _ o v => image_fun2par 0%Qc o v a
-  | GMapped g' _ _ => g_fun2vec g' a
+  | GMapped g' _ _ | GMappedLin g' _ _ => g_fun2vec g' a
   | _ => Some a
   end.
 Fixpoint g_vec2fun (g : geom) (a : arr Qc) : option (arr Qc) :=
   match g with
   | GCont2D _ _ => None
   | GImage r c o v => image_par2fun 0%Qc r c o v a
-  | GMapped g' _ _ => g_vec2fun g' a
+  | GMapped g' _ _ | GMappedLin g' _ _ => g_vec2fun g' a
   | _ => Some a
   end.
 
